@@ -1,26 +1,18 @@
 package checks
 
 import (
-	"bytes"
-	"encoding/base64"
-	"encoding/json"
 	"errors"
 	"fmt"
-	"strconv"
 	"strings"
 	"testing"
 
-	"github.com/ipfs/go-cid"
-	"github.com/ipld/go-ipld-prime/codec/dagcbor"
-	"github.com/ipld/go-ipld-prime/codec/dagjson"
-	"github.com/ipld/go-ipld-prime/datamodel"
 	"github.com/ipld/go-ipld-prime/node/bindnode"
 	"github.com/ipld/go-ipld-prime/schema"
 	"pgregory.net/rapid"
 
 	"verif/evid"
+	"verif/typedx"
 	"verif/nodes"
-	"verif/refcbor"
 	"verif/tschema"
 	"verif/val"
 )
@@ -34,137 +26,7 @@ type C09Case struct {
 	Events val.V          `json:"events"`
 	Via    string         `json:"via"` // direct | dagcbor | dagcbor-relaxed | dagjson
 	Ops    string         `json:"ops,omitempty"`
-}
-
-func stripAbsent(v val.V) val.V {
-	c := v
-	if v.Items != nil {
-		c.Items = make([]val.V, len(v.Items))
-		for i := range v.Items {
-			c.Items[i] = stripAbsent(v.Items[i])
-		}
-	}
-	if v.Ents != nil {
-		c.Ents = make([]val.Ent, 0, len(v.Ents))
-		for _, e := range v.Ents {
-			if e.V.K == val.Absent {
-				continue
-			}
-			c.Ents = append(c.Ents, val.Ent{K: e.K, V: stripAbsent(e.V)})
-		}
-	}
-	return c
-}
-
-// eventsJSON renders a tree (maps may repeat keys) as DAG-JSON text; ok=false if it has floats.
-func eventsJSON(v val.V) (string, bool) {
-	switch v.K {
-	case val.Null:
-		return "null", true
-	case val.Bool:
-		return strconv.FormatBool(v.B), true
-	case val.Int:
-		return strconv.FormatInt(v.I, 10), true
-	case val.String:
-		if !isValidUTF8(v.S) {
-			return "", false
-		}
-		b, _ := json.Marshal(v.S)
-		return string(b), true
-	case val.Bytes:
-		return `{"/":{"bytes":"` + base64.RawStdEncoding.EncodeToString([]byte(v.S)) + `"}}`, true
-	case val.Link:
-		c, err := cid.Cast([]byte(v.S))
-		if err != nil {
-			return "", false
-		}
-		return `{"/":"` + c.String() + `"}`, true
-	case val.List:
-		parts := make([]string, len(v.Items))
-		for i, it := range v.Items {
-			s, ok := eventsJSON(it)
-			if !ok {
-				return "", false
-			}
-			parts[i] = s
-		}
-		return "[" + strings.Join(parts, ",") + "]", true
-	case val.Map:
-		if val.IsReservedShape(v) {
-			return "", false
-		}
-		parts := make([]string, len(v.Ents))
-		for i, e := range v.Ents {
-			if !isValidUTF8(e.K) {
-				return "", false
-			}
-			s, ok := eventsJSON(e.V)
-			if !ok {
-				return "", false
-			}
-			k, _ := json.Marshal(e.K)
-			parts[i] = string(k) + ":" + s
-		}
-		return "{" + strings.Join(parts, ",") + "}", true
-	}
-	return "", false
-}
-
-func isValidUTF8(s string) bool { return strings.ToValidUTF8(s, "�") == s && !strings.Contains(s, "�") }
-
-// typedProto returns the prototype for the level.
-func typedProto(p schema.TypedPrototype, level int) datamodel.NodePrototype {
-	if level == 1 {
-		return p.Representation()
-	}
-	return p
-}
-
-// c09Feed offers the events to the builder through the chosen route and reports acceptance.
-func c09Feed(np datamodel.NodePrototype, events val.V, via string) (n datamodel.Node, accepted bool, applicable bool, err error) {
-	nb := np.NewBuilder()
-	var ferr error
-	switch via {
-	case "direct":
-		ferr = evid.Guard("assembling", func() error { return nodes.Assemble(nb, events, nil, 0) })
-	case "dagcbor", "dagcbor-relaxed":
-		b, eerr := refcbor.EncodeUnsorted(events)
-		if eerr != nil {
-			return nil, false, false, nil
-		}
-		ferr = evid.Guard("dagcbor.Decode", func() error {
-			return dagcbor.DecodeOptions{AllowLinks: true, RelaxedDecode: via == "dagcbor-relaxed"}.Decode(nb, bytes.NewReader(b))
-		})
-	case "dagjson":
-		text, ok := eventsJSON(events)
-		if !ok {
-			return nil, false, false, nil
-		}
-		ferr = evid.Guard("dagjson.Decode", func() error { return dagjson.Decode(nb, strings.NewReader(text)) })
-	}
-	if ferr != nil {
-		if strings.HasPrefix(ferr.Error(), "PANIC") {
-			return nil, false, true, ferr
-		}
-		return nil, false, true, nil
-	}
-	if gerr := evid.Guard("Build", func() error { n = nb.Build(); return nil }); gerr != nil {
-		return nil, false, true, gerr
-	}
-	return n, true, true, nil
-}
-
-func hasDup(v val.V) bool {
-	return v.Has(func(x val.V) bool {
-		seen := map[string]bool{}
-		for _, e := range x.Ents {
-			if seen[e.K] {
-				return true
-			}
-			seen[e.K] = true
-		}
-		return false
-	})
+	Prog   []byte         `json:"prog,omitempty"` // call styles of the direct route (entry shortcut vs key assembler, ...)
 }
 
 func c09Check(c C09Case, rec *evid.Rec) error {
@@ -186,10 +48,10 @@ func c09Check(c C09Case, rec *evid.Rec) error {
 		return nil
 	}
 	conforms := perr == nil
-	if c.Via == "dagcbor" && hasDup(c.Events) {
+	if c.Via == "dagcbor" && typedx.HasDup(c.Events) {
 		conforms = false // the strict decoder refuses repeated keys itself
 	}
-	n, accepted, applicable, ferr := c09Feed(typedProto(proto, c.Level), c.Events, c.Via)
+	n, accepted, applicable, ferr := typedx.Feed(typedx.TypedProto(proto, c.Level), c.Events, c.Via, c.Prog)
 	if !applicable {
 		rec.Class("route-not-applicable")
 		return nil
@@ -209,7 +71,7 @@ func c09Check(c C09Case, rec *evid.Rec) error {
 		tview := tschema.TypeView(&c.S, c.Type, tv)
 		rview, ok := tschema.ReprView(&c.S, c.Type, tv)
 		if ok {
-			if err := checkViews(n, tview, rview, what+": accepted, but"); err != nil {
+			if err := typedx.CheckViews(n, tview, rview, what+": accepted, but"); err != nil {
 				return err
 			}
 		}
@@ -241,7 +103,7 @@ func genC09(t *rapid.T, o tschema.GenOpts) C09Case {
 	s, typ, tv := genSchemaValue(t, o)
 	c := C09Case{S: s, Type: typ, Level: rapid.IntRange(0, 1).Draw(t, "level")}
 	if c.Level == 0 {
-		c.Events = stripAbsent(tschema.TypeView(&s, typ, tv))
+		c.Events = typedx.StripAbsent(tschema.TypeView(&s, typ, tv))
 	} else {
 		c.Events, _ = tschema.ReprView(&s, typ, tv)
 	}
@@ -260,6 +122,9 @@ func genC09(t *rapid.T, o tschema.GenOpts) C09Case {
 		}
 	}
 	c.Via = rapid.SampledFrom([]string{"direct", "direct", "dagcbor", "dagcbor-relaxed", "dagjson"}).Draw(t, "via")
+	if c.Via == "direct" {
+		c.Prog = rapid.SliceOfN(rapid.Byte(), 0, 8).Draw(t, "prog")
+	}
 	return c
 }
 
